@@ -118,6 +118,37 @@ def run(run):
                 mm, st = S.compare(real, model, src, file)
                 if mm:
                     mism.append(dict(label=label, first=mm[:2], source=src[:200].decode("utf-8", "replace")))
+        # ---- the same contents as files of a project (the scan of a directory goes through the worker pool, its
+        #      status lines and the merge): any mix of contents, blank and empty files included, ends normally
+        blanks = [("blank", b""), ("blank", b"   \n\t\n"), ("blank", b"\n"), ("blank", b"\r\n\r\n "), ("blank", b"\xef\xbb\xbf"), ("blank", b"// nothing else\n")]
+        pool_inputs = [x for x in inputs if not x[0].startswith("deep-") and len(x[1]) < 20000]
+        for pj in range(3 if quick else 25):
+            root = C.scratch("c09proj")
+            try:
+                chosen = blanks[:rng.randint(1, len(blanks))] + [rng.choice(pool_inputs) for _ in range(rng.randint(3, 14))] + [("seed", base[0])]
+                rng.shuffle(chosen)
+                good = 0
+                for i, (label, src) in enumerate(chosen):
+                    sub = os.path.join(root, rng.choice(["", "a", "a/b", "z"]))
+                    os.makedirs(sub, exist_ok=True)
+                    open(os.path.join(sub, "%s%02d.java" % (rng.choice(["AAA_", "M", "zz"]), i)), "wb").write(src)
+                    good += label == "seed"
+                r = h.call(op="scan", dir=root, graph="p9", nonodes=True, timeout=180)
+                run.count(("project", pj, len(chosen)))
+                stats["project_scans"] += 1
+                if r.get("outcome") != "ok":
+                    run.violation("C09:project-scan-" + str(r.get("outcome")), "scanning a directory of %d files (%s) ends with %s: %s" %
+                                  (len(chosen), ", ".join(sorted({l for l, _ in chosen})), r.get("outcome"), (r.get("panic") or "")[:200]),
+                                  dict(files=[dict(label=l, source_hex=b.hex()[:4000]) for l, b in chosen], panic=r.get("panic"), stack=r.get("stack")))
+                    if r.get("outcome") in ("died", "hang"):
+                        h = C.Harness()
+                    continue
+                cl = h.call(op="query-entities", graph="p9", q="FROM class_declaration AS c SELECT c.getName()", timeout=60)
+                if cl.get("outcome") == "ok" and len(cl["tuples"]) < good:
+                    run.violation("C09:project-scan-lost-files", "a directory with %d well-formed files among %d yields only %d classes" % (good, len(chosen), len(cl["tuples"])),
+                                  dict(files=[dict(label=l, source_hex=b.hex()[:4000]) for l, b in chosen]))
+            finally:
+                shutil.rmtree(root, ignore_errors=True)
         run.sample(dict(label="mutated", source=inputs[len(base) + 1][1][:300].decode("utf-8", "replace")))
         # ---- scaling family: operation counts (exact relation) and growth
         sizes = [(6, 4), (18, 4), (54, 4)] if quick else [(10, 4), (30, 4), (90, 4), (270, 4)]
